@@ -352,6 +352,48 @@ def traced_facts(prog: Program, interp: Interp, cr: ClientRoles) -> Tuple[Dict[s
     return facts, problems
 
 
+def trace_ctx_forwarding_problems(prog: Program) -> Tuple[int, List[Tuple[FuncInfo, int, str, str]]]:
+    """TRACE-CTX along the call chain: a client-module function that receives the per-call trace context (`_trace_ctx`) hands it to
+    every client-module function it calls that takes one too — otherwise the tracers are given a fresh context instead of the
+    caller's.  (#forwarding sites examined, problems)"""
+    ty = types_of(prog)
+    sites = 0
+    problems: List[Tuple[FuncInfo, int, str, str]] = []
+    for f in prog.iter_funcs():
+        if f.module.name != 'pjrpc.client.client' or not isinstance(f.node, (ast.FunctionDef, ast.AsyncFunctionDef)):
+            continue
+        if '_trace_ctx' not in [p.arg for p in f.params]:
+            continue
+        sc = FuncScope(f, ty)
+        for x in walk_own(f.node):
+            if not isinstance(x, ast.Call) or not isinstance(x.func, ast.Attribute):
+                continue
+            try:
+                tg = ty.callees(x, sc)
+            except RecursionError:
+                continue
+            callees = [o for k, o in tg if k == 'func' and isinstance(o, FuncInfo) and o.module.name == 'pjrpc.client.client'
+                       and '_trace_ctx' in [p.arg for p in o.params]]
+            if not callees:
+                continue
+            sites += 1
+            passed = None
+            for kw in x.keywords:
+                if kw.arg == '_trace_ctx':
+                    passed = kw.value
+            if passed is None:
+                pos = [p.arg for p in callees[0].node.args.args]
+                if callees[0].cls is not None and pos and pos[0] in ('self', 'cls'):
+                    pos = pos[1:]
+                if '_trace_ctx' in pos and len(x.args) > pos.index('_trace_ctx') and not any(isinstance(a, ast.Starred) for a in x.args):
+                    passed = x.args[pos.index('_trace_ctx')]
+            if passed is None or dotted(passed) != '_trace_ctx':
+                problems.append((f, x.lineno, f'trace context not handed on: {norm(x)[:50]}',
+                                 f'`{norm(x)[:80]}` does not pass the `_trace_ctx` it was given to {short(callees[0].qualname)}: the tracers of this '
+                                 f'call see a new empty context instead of the one the caller supplied'))
+    return sites, problems
+
+
 def relate_inside_send_problems(prog: Program) -> Tuple[int, List[Tuple[FuncInfo, int, str, str]]]:
     """Every place of the client module that sends a request hands its class's `_relate` to `_send` as the validator, and `_relate`
     is called from nowhere else: the id check is then part of the traced (and retried) attempt, so its failure is reported to the
